@@ -10,3 +10,18 @@ package gqlerrors
 //@   assigns nothing
 //@   requires s != nil && 0 <= position
 //@   ensures result != nil
+
+//@ func FormatError
+//@   props C04 C18
+//@   trusted
+//@   assigns nothing
+
+//@ func NewErrorWithPath
+//@   props C18
+//@   trusted
+//@   assigns nothing
+//@   ensures result != nil && result.Path == path
+
+//@ func NewFormattedError
+//@   trusted
+//@   assigns nothing
